@@ -1059,9 +1059,12 @@ class AstEval:
                 mod = sys.modules[arg.module]
         for imp in arg.names:
             if imp.name == "*":
-                for name, value in mod.__dict__.items():
-                    if name[0] != "_":
-                        self.sym_table[name] = value
+                # as in python: the names listed in __all__, else the public names
+                star_names = mod.__dict__.get("__all__")
+                if star_names is None:
+                    star_names = [name for name in mod.__dict__ if name[0] != "_"]
+                for name in star_names:
+                    self.sym_table[name] = getattr(mod, name)
             else:
                 self.bind_name(imp.name if imp.asname is None else imp.asname, getattr(mod, imp.name))
 
